@@ -66,7 +66,7 @@ fn default_runs(s: Scenario, t: Tier) -> u64 {
         (Scenario::Crashfree, Tier::Thorough) => 200000,
         (Scenario::Wellformed, Tier::Quick) => 20000,
         (Scenario::Wellformed, Tier::Thorough) => 180000,
-        (Scenario::HistoryIndependence, Tier::Quick) => 12000,
+        (Scenario::HistoryIndependence, Tier::Quick) => 16000,
         (Scenario::HistoryIndependence, Tier::Thorough) => 160000,
         (Scenario::SessionReset, Tier::Quick) => 60000,
         (Scenario::SessionReset, Tier::Thorough) => 800000,
